@@ -303,6 +303,31 @@ pub fn run(cfg: &Cfg) -> Stats {
                 }
             }
         }
+        // every character U+00A0..U+3000 and a lattice over the rest of Unicode, inline and at the start of a line
+        let mut cp = 0xA0u32;
+        while cp <= 0x10FFFF {
+            let step = if cp < 0x3000 { 1 } else { 0x101 };
+            k += 1;
+            if k % n == shard {
+                if let Some(c) = char::from_u32(cp) {
+                    eval(&format!("\x1b[0;1;31m10{c}km\n{c}x\x1b[0m {c}"), &mut st, true);
+                }
+            }
+            cp += step;
+        }
+        // unbroken runs around 2^k bytes with no blank and no line break
+        for t in refmodel::gen::THRESHOLDS.iter().filter(|t| **t <= 16384) {
+            for d in -1i64..=1 {
+                k += 1;
+                if k % n != shard {
+                    continue;
+                }
+                let len = (*t as i64 + d) as usize;
+                eval(&format!("\x1b[0;3m{}\x1b[0m.", "w".repeat(len)), &mut st, true);
+                eval(&format!("\x1b[0;32m{}", "\u{2500}".repeat(len / 3 + 1)), &mut st, true);
+                eval(&format!("{} tail", "w".repeat(len)), &mut st, true);
+            }
+        }
         let mut i = shard;
         while i < ntext {
             let mut rng = Rng::new(cfg.seed, 0xC15_0000_0000 + i);
@@ -310,10 +335,45 @@ pub fn run(cfg: &Cfg) -> Stats {
             if rng.chance(1, 3) {
                 s.push_str(&gen_text(&mut rng, 10));
             }
-            for _ in 0..rng.range(0, 6) {
-                gen_sgr(&mut rng, &mut s);
-                if rng.chance(9, 10) {
-                    s.push_str(&gen_text(&mut rng, 12));
+            // styles come from a small pool in half of the documents, so that A, B, A patterns and repeats are common
+            let pool: Vec<String> = (0..rng.range(1, 3))
+                .map(|_| {
+                    let mut t = String::new();
+                    gen_sgr(&mut rng, &mut t);
+                    t
+                })
+                .collect();
+            let use_pool = rng.chance(1, 2);
+            let nseg = if rng.chance(1, 12) { rng.range(6, 60) } else { rng.range(0, 6) };
+            for _ in 0..nseg {
+                if use_pool {
+                    s.push_str(rng.pick(&pool[..]).as_str());
+                } else {
+                    gen_sgr(&mut rng, &mut s);
+                }
+                match rng.below(20) {
+                    0 => {}
+                    1 => s.push_str(*rng.pick(&["\n", "\n\n", " ", "   ", "\t", " \n "])),
+                    2 => {
+                        // a long segment: length on a power-of-two threshold
+                        // (line breaks every 61 characters, rarely, or never; letters or a multi-byte character; with or without blanks)
+                        let n = refmodel::gen::long_len(&mut rng, 8192);
+                        let period = *rng.pick(&[61usize, 61, 3001, usize::MAX]);
+                        let blank = *rng.pick(&[usize::MAX, usize::MAX, 7, 997]);
+                        let wide = rng.chance(1, 4);
+                        for k in 0..n {
+                            s.push(if k % period == period - 1 {
+                                '\n'
+                            } else if k % blank == blank - 1 {
+                                ' '
+                            } else if wide {
+                                '\u{2500}'
+                            } else {
+                                (b'a' + (k % 26) as u8) as char
+                            });
+                        }
+                    }
+                    _ => s.push_str(&gen_text(&mut rng, 12)),
                 }
             }
             if i < 3 {
@@ -329,7 +389,7 @@ pub fn run(cfg: &Cfg) -> Stats {
         }
         st
     });
-    st.exhaustive_parts.push("all 17x17 colour pairs x 192 effect subsets (none/bold/faint x any subset of italic, underline, blink, reverse, hidden, strike) for a single segment".into());
+    st.exhaustive_parts.push("all 17x17 colour pairs x 192 effect subsets (none/bold/faint x any subset of italic, underline, blink, reverse, hidden, strike) for a single segment; every character U+00A0..U+3000 inline and at the start of a line; unbroken runs of 2^k-1..2^k+1 characters up to 16384".into());
     st
 }
 
